@@ -56,7 +56,7 @@ use std::fs::{DirEntry, File, create_dir_all, read_dir, remove_file};
 #[cfg(feature = "checkpointing")]
 use std::io::{Read, Write};
 #[cfg(feature = "checkpointing")]
-use std::path::{Path, PathBuf};
+use std::path::{Component, Path, PathBuf};
 #[cfg(feature = "checkpointing")]
 use std::time::{Duration, SystemTime, UNIX_EPOCH};
 
@@ -230,6 +230,15 @@ impl CheckpointManager {
     /// Returns an error if the checkpoint file cannot be created or written to.
     pub fn save_checkpoint(&mut self, state: &CheckpointState) -> Result<PathBuf> {
         let filename = format!("checkpoint_{}_{}.bin", state.pipeline_id, state.timestamp);
+        // The file must be an entry of the checkpoint directory itself: a pipeline id containing a path
+        // separator would put it into a sub-directory, where retention and lookup never see it.
+        let mut components = Path::new(&filename).components();
+        if !matches!(components.next(), Some(Component::Normal(_))) || components.next().is_some() {
+            return Err(anyhow!(
+                "Pipeline id {:?} cannot be used in a checkpoint file name",
+                state.pipeline_id
+            ));
+        }
         let path = self.config.directory.join(&filename);
 
         let encoded = encode_to_vec(state, bincode::config::standard())
